@@ -402,7 +402,11 @@ impl<'a> Run<'a> {
                             }
                         }
                     }
-                    if ev.op == "insert_one" {
+                    // another client obtains a name: by registering it, by being handed it as a
+                    // temporary name, or by renaming onto it
+                    let obtains = ev.op == "insert_one"
+                        || (ev.op == "replace_one" && t.before.as_ref().and_then(|b| doc_str(b, "username")) != t.after.as_ref().and_then(|a| doc_str(a, "username")));
+                    if obtains {
                         if let (Some(a), Some(c)) = (&t.after, actor_client) {
                             let name = doc_str(a, "username").unwrap_or_default();
                             if self.orphan_sessions.iter().any(|(oc, on)| *oc != c && *on == name) {
